@@ -11,6 +11,7 @@ import OpenFGAVerif.Driver.Proto
 import OpenFGAVerif.Driver.FgaCodec
 import OpenFGAVerif.Model.Validation
 import OpenFGAVerif.Spec.Allowed
+import OpenFGAVerif.Gen.Validation
 
 open OpenFGAVerif OpenFGAVerif.Proto OpenFGAVerif.FgaCodec
 open OpenFGAVerif.Model.Validation
@@ -24,7 +25,8 @@ def b (s : String) : Bytes := s.toUTF8.toList
 
 def std0 : Std := { parseDuration := fun _ => none, parseRFC3339 := fun _ => none, parseIP := fun _ => none }
 
-def apiLimit : Nat := 32768
+/-- the limit `Server.Write` runs with: the configured default, regenerated from the source -/
+def apiLimit : Nat := Gen.Validation.defaultWriteContextByteLimit
 
 /-! ### decoding -/
 
